@@ -23,7 +23,7 @@ before it (or free Verus text when outside an @extract block).
     @bodystart / payload                 insert right after the opening brace of the fn body
     @atend / payload                     insert just before the closing brace of the fn body
     @beforeloop|@afterloop|@loopstart|@loopend ORD / payload   around / inside the ORD-th loop
-    @rule R1 loop ORD iter NAME          for-desugaring over an external iterator
+    @rule R1 loop ORD iter NAME          for-desugaring over an external iterator (@loopinit ORD payload goes between `let mut NAME = ..;` and `loop`)
     @rule R2                             `.map(Self)`/`.map(Ctor)` eta-expansion (payload: closure text per match)
     @rule R3 loop ORD index NAME         iter_mut loop -> index loop
     @rule R10 [NAME]                     `mut self` parameter -> `let mut NAME = self;` + renaming in the body
@@ -373,6 +373,8 @@ class Extractor:
         for d in dirs:
             if d.name == "loop":
                 loop_payload.setdefault(d.arg.strip(), []).append(d)
+            if d.name == "loopinit":
+                loop_payload.setdefault("init:" + d.arg.strip(), []).append(d)
 
         handled_loops = set()
         for d in dirs:
@@ -420,6 +422,8 @@ class Extractor:
                 pos = {"beforeloop": lp["kw_pos"], "afterloop": lp["close"] + 1,
                        "loopstart": lp["open"] + 1, "loopend": lp["close"]}[n]
                 add(pos, pos, "\n" + d.text() + "\n", ("ins", cur_label, n + " " + d.arg.strip(), d.line))
+            elif n == "loopinit":
+                continue    # consumed by rule R1 (ghost code between the iterator binding and the loop)
             elif n == "before":
                 need_fn(d)
                 idx, pos = find_stmt(d, d.arg)
@@ -618,7 +622,7 @@ class Extractor:
             # invocation `MACRO!(Value, ...)` in the same file does (first macro argument only)
             mac = args[1]
             var, _, val = args[2].partition("=")
-            if not re.search(r"\b%s!\(\s*%s\s*," % (re.escape(mac), re.escape(val)), src):
+            if not re.search(r"\b%s!\(\s*%s\s*[,)]" % (re.escape(mac), re.escape(val)), src):
                 raise GenError("rule macro-inst: no invocation %s!(%s, ...) in source" % (mac, val))
             n = 0
             for m in re.finditer(re.escape(var) + r"\b", src[item.start:item.end]):
@@ -681,7 +685,8 @@ class Extractor:
             handled_loops.add(ordstr)
             head_lo, head_hi = toks[k].start, toks[lp["open_idx"] - 1].end
             if rule == "R1":
-                new_head = "let mut %s = %s;\nloop\n%s\n{ match %s.next() { None => { break; } Some(%s) => " % (name, expr_text, inv, name, pat_text)
+                init = "\n".join(x.text() for x in loop_payload.get("init:" + ordstr, []))
+                new_head = "let mut %s = %s;\n%s\nloop\n%s\n{ match %s.next() { None => { break; } Some(%s) => " % (name, expr_text, init, inv, name, pat_text)
                 add(head_lo, head_hi, new_head, ("rule", "R1-for-desugar", cur_label, d.line))
                 add(lp["close"] + 1, lp["close"] + 1, " } }", ("rule-ins", "R1-for-desugar", cur_label, d.line))
                 self.count("R1-for-desugar")
